@@ -193,3 +193,10 @@ func U32sAt(u uintptr, n int) []uint32 {
 
 // PtrTokenOf returns the address token of any pointer.
 func PtrTokenOf(p any) uintptr { return 0 }
+
+// Outputs collects values reported by selftest harnesses during a native run.
+var Outputs = map[string]string{}
+
+// Output reports a named value of a concrete self-test run (engine: recorded in the result
+// file; native: collected in Outputs) so that interpreter and native results can be compared.
+func Output(key string, v any) { Outputs[key] = fmt.Sprint(v) }
